@@ -50,11 +50,18 @@ pub fn complete(
             return complete_arg(&arg, current_cmd, current_dir, pos_index, current_state);
         }
 
-        if let Ok(value) = arg.to_value() {
-            if let Some(next_cmd) = current_cmd.find_subcommand(value) {
-                current_cmd = next_cmd;
-                pos_index = 1;
-                continue;
+        // Like the parser, only look for a subcommand where a new argument may start: not after `--`
+        // and not while an option or a multi-value positional is still taking values
+        let may_be_subcommand = !is_escaped
+            && (current_cmd.is_subcommand_precedence_over_arg_set()
+                || matches!(current_state, ParseState::ValueDone));
+        if may_be_subcommand {
+            if let Ok(value) = arg.to_value() {
+                if let Some(next_cmd) = current_cmd.find_subcommand(value) {
+                    current_cmd = next_cmd;
+                    pos_index = 1;
+                    continue;
+                }
             }
         }
 
